@@ -204,7 +204,7 @@ def vlex_not_covered(spec):
     return sorted('%s/%s' % (d, cg) for d in spec.get('defs_thorough', spec['defs']) for cg in spec.get('codegens', ('tailcall', 'state_machine'))
                   if (costs.get('%s/%s' % (d, cg)) or {}).get('status') != 'ok')
 
-VLEX_ALL = ['B1', 'B2', 'B3', 'B4', 'B5', 'B6', 'B7', 'B8', 'E1', 'S1', 'S3', 'L1', 'I2', 'P2', 'P2T', 'M1B', 'M2B', 'O3', 'O3A', 'Q3',
+VLEX_ALL = ['B1', 'B2', 'B3', 'B4', 'B5', 'B6', 'B7', 'B8', 'E1', 'E3', 'S1', 'S3', 'L1', 'I2', 'P2', 'P2T', 'M1B', 'M2B', 'O3', 'O3A', 'Q3',
             'L2', 'I1', 'P1', 'P1T', 'Q2', 'U1', 'U2', 'E2']
 VLEX_NOTE = ('V-lex: the text logos_codegen::generate emits (obtained through /repo\'s logos-cli on every run) for the corpus definitions %s, '
              'both code generators where the state-machine loop stays within the solver budget, is proved - for ALL inputs, no length bound - to satisfy the '
@@ -212,7 +212,7 @@ VLEX_NOTE = ('V-lex: the text logos_codegen::generate emits (obtained through /r
              'str definitions are verified with `type Source = [u8]` (rewrite L6): everything except the char-boundary conjuncts.')
 
 SPEC_KINDS = ('spec', 'specc', 'ctx', 'ctxc', 'skel', 'skelc')
-BYTE_DEFS = ['B1', 'B2', 'B3', 'B4', 'B5', 'B6', 'B7', 'B8', 'E1']
+BYTE_DEFS = ['B1', 'B2', 'B3', 'B4', 'B5', 'B6', 'B7', 'B8', 'E1', 'E3']
 SKIP_DEFS = ['S1', 'S2', 'S3']
 STR_DEFS = ['U1', 'U2', 'E2']
 BOUND_NOTE = ('corpus definitions %s; inputs: fully symbolic bytes up to the listed length (spec_*), or a concrete context with '
@@ -265,11 +265,11 @@ PLAN = {
         explanation='K-lex harnesses compare one next() of the real lexer with spec::expected_item; V-cg proves ByteClass::add_byte/to_table; V-src proves the tiling contract',
     ),
     'C02': dict(
-        vlex=dict(defs=['E1', 'E2', 'B1', 'L1', 'U1'], codegens=('tailcall',), canary_defs=['E1']),
+        vlex=dict(defs=['E1', 'E3', 'E2', 'B1', 'L1', 'U1'], codegens=('tailcall',), canary_defs=['E1']),
         level='model_checking', engine='verus+kani',
         verus=[('v_src', BOTH)],
         twins=SRC_TWINS,
-        kani=[KSRC_BOUNDARY] + klex_suite('K-lex error spans', SPEC_KINDS, ['E1', 'E2', 'B1', 'B2', 'U1', 'K2', 'L1'],
+        kani=[KSRC_BOUNDARY] + klex_suite('K-lex error spans', SPEC_KINDS, ['E1', 'E3', 'E2', 'B1', 'B2', 'U1', 'K2', 'L1'],
                         covers=['error produced', 'error longer than one byte'],
                         bounded=BOUND_NOTE % 'E1, E2, B1, B2, U1, K2, L1'),
         technique='Verus proof that str::find_boundary returns the least char boundary >= its argument (loop invariant) and that end_to_boundary stores it; Verus proof (V-lex) that every item of the generated corpus lexers - errors included - covers at least one byte and ends inside the source, for all inputs; bounded model checking (Kani) of error items against the specified span rule',
@@ -327,9 +327,9 @@ PLAN = {
         explanation='Source::read contract + Kani memory model on exactly sized buffers',
     ),
     'C06': dict(
-        vlex=dict(defs=['B1', 'B2', 'B4', 'B5', 'B8', 'S1', 'S3', 'Q2', 'Q3', 'E2', 'L1', 'U2'], defs_thorough=VLEX_ALL, canary_defs=['B2']),
+        vlex=dict(defs=['B1', 'B2', 'B4', 'B5', 'B8', 'E3', 'S1', 'S3', 'Q2', 'Q3', 'E2', 'L1', 'U2'], defs_thorough=VLEX_ALL, canary_defs=['B2']),
         level='model_checking', engine='verus+kani',
-        kani=klex_suite('K-lex both code generators', SPEC_KINDS, ['B1', 'B2', 'B4', 'B5', 'B8', 'E1', 'S2', 'S3', 'K1', 'U1', 'Q2'],
+        kani=klex_suite('K-lex both code generators', SPEC_KINDS, ['B1', 'B2', 'B4', 'B5', 'B8', 'E1', 'E3', 'S2', 'S3', 'K1', 'U1', 'Q2'],
                         covers=['token produced', 'error produced'], configs=((), ('state_machine_codegen',)), quick_per_def=9, quick_cost=25,
                         bounded=BOUND_NOTE % 'B1, B2, B4, B5, E1, S2, K1, U1 under the tail-call and the state-machine generator'),
         technique='bounded model checking (Kani/CBMC): the same harnesses against one deterministic specification under both code generators; Verus proof (V-lex) that the output of BOTH generators satisfies the same contract LEX for all inputs (not equality of results)',
@@ -448,7 +448,7 @@ PLAN = {
     ),
     'C20': dict(
         level='model_checking', engine='kani',
-        kani=klex_suite('K-lex read trace', SPEC_KINDS, ['B1', 'B2', 'B3', 'B5', 'B7', 'E1', 'S1', 'S2', 'U1', 'K1'],
+        kani=klex_suite('K-lex read trace', SPEC_KINDS, ['B1', 'B2', 'B3', 'B5', 'B7', 'E1', 'E3', 'S1', 'S2', 'U1', 'K1'],
                         covers=['C20 monitor: at least two reads traced', 'token produced'], configs=(('verif_hooks',),), quick_per_def=6, quick_cost=60,
                         always=['ctx_B7__23abcdefghijklmnopqrstuvwx_q_s0', 'ctx_B5_abcdefghijklmnop_q_s0'],
                         bounded=BOUND_NOTE % 'B1, B2, B3, B5, E1, S1, S2, U1, K1 with the ghost read-trace monitor of the verif_hooks feature'),
